@@ -206,7 +206,56 @@ def mk_sub(a, b):
         return mk_add(a, _num(-b.val, a.sort))
     if a == b:
         return _num(0, a.sort)
+    if a.sort == INT:
+        xa, xb, hit = _cancel(a, b)
+        if hit:
+            return mk_sub(mk_add(*xa) if xa else _num(0, INT), mk_add(*xb) if xb else _num(0, INT))
     return T('-', (a, b), a.sort)
+
+
+def _summands(t):
+    return list(t.args) if t.op == '+' else [t]
+
+
+def _cancel(a, b):
+    """Common summands of two integer sums removed (multiset); constants folded to one side."""
+    xa, xb, hit = _summands(a), _summands(b), False
+    for y in list(xb):
+        if not y.is_const and y in xa:
+            xa.remove(y)
+            xb.remove(y)
+            hit = True
+    ca = sum(x.val for x in xa if x.is_const)
+    cb = sum(x.val for x in xb if x.is_const)
+    if ca and cb:
+        xa = [x for x in xa if not x.is_const]
+        xb = [x for x in xb if not x.is_const]
+        if ca - cb > 0:
+            xa.append(_num(ca - cb, INT))
+        elif ca - cb < 0:
+            xb.append(_num(cb - ca, INT))
+        hit = True
+    return xa, xb, hit
+
+
+def _nonneg(t):
+    if t.is_const:
+        return t.val >= 0
+    if t.op == 'str.len':
+        return True
+    if t.op == '+':
+        return all(_nonneg(x) for x in t.args)
+    if t.op == 'ite':
+        return _nonneg(t.args[1]) and _nonneg(t.args[2])
+    return False
+
+
+def _positive(t):
+    if t.is_const:
+        return t.val > 0
+    if t.op == '+':
+        return all(_nonneg(x) for x in t.args) and any(_positive(x) for x in t.args)
+    return False
 
 
 def mk_mul(a, b):
@@ -260,6 +309,16 @@ def mk_lt(a, b):
         return const(a.val < b.val)
     if a == b:
         return FALSE
+    if a.sort == INT and b.sort == INT:
+        xa, xb, hit = _cancel(a, b)
+        if hit:
+            return mk_lt(mk_add(*xa) if xa else _num(0, INT), mk_add(*xb) if xb else _num(0, INT))
+        if b.is_const and b.val <= 0 and _nonneg(a):          # lengths are non-negative
+            return FALSE
+        if a.is_const and a.val <= 0 and _positive(b):
+            return TRUE
+        if a.is_const and a.val < 0 and _nonneg(b):
+            return TRUE
     return T('<', (a, b), BOOL)
 
 
@@ -268,6 +327,16 @@ def mk_le(a, b):
         return const(a.val <= b.val)
     if a == b:
         return TRUE
+    if a.sort == INT and b.sort == INT:
+        xa, xb, hit = _cancel(a, b)
+        if hit:
+            return mk_le(mk_add(*xa) if xa else _num(0, INT), mk_add(*xb) if xb else _num(0, INT))
+        if a.is_const and a.val <= 0 and _nonneg(b):
+            return TRUE
+        if b.is_const and b.val < 0 and _nonneg(a):
+            return FALSE
+        if b.is_const and b.val <= 0 and _positive(a):
+            return FALSE
     return T('<=', (a, b), BOOL)
 
 
